@@ -82,7 +82,8 @@ def make_tables(r, genes, structure, planted, noise):
             tables.append(table)
             continue
         lo, hi = min(sites) - 4, max(sites) + 4
-        for p in range(lo, hi + 1):
+        # reference reads at every catalogued site (the same set of sites in both builds) and around the planted ones
+        for p in sorted(set(range(lo, hi + 1)) | {q for q, _ in g.mutations} | {q + 1 for q, _ in g.mutations} | {q - 1 for q, _ in g.mutations}):
             pc = cn_for(g, structure).position_cn(p)
             var_here = sum(len(v) for o, v in table.get(p, {}).items() if o[:3] != "ins")
             refc = max(0, d * pc - var_here)
@@ -234,6 +235,18 @@ def transport_reads(reads, ga, gb):
     return out
 
 
+def shiftable_indel(gene, m):
+    """an insertion / deletion that has another spelling in its repeat (either direction)"""
+    pos, op = m[0], m[1]
+    if op.startswith("del") and "ins" not in op:
+        n = len(op) - 3
+        return gene[pos - 1] == gene[pos + n - 1] or gene[pos] == gene[pos + n]
+    if op.startswith("ins"):
+        x = op[3:]
+        return gene[pos] == x[-1] or gene[pos + 1] == x[0]
+    return False
+
+
 def load_pair(gd):
     return [instances.load_gene({**gd, "genome": gm})[0] for gm in ("hg19", "hg38")]
 
@@ -333,8 +346,20 @@ def tie(ctx):
             outs = []
             prof_a = sim.simulate_reads(genes[0], [("1", "1.001"), ("1", "1.001")], depth=12)
             smp_a = sim.simulate_reads(genes[0], copies, depth=12)
-            prof_b = transport_reads(prof_a, genes[0], genes[1])
-            smp_b = transport_reads(smp_a, genes[0], genes[1])
+            if k % 2 == 0:
+                # alignments produced against the other build (the simulator writes indels at the leftmost position of
+                # their repeat in the genome it aligns to, as aligners do)
+                prof_b = sim.simulate_reads(genes[1], [("1", "1.001"), ("1", "1.001")], depth=12)
+                smp_b = sim.simulate_reads(genes[1], copies, depth=12)
+                stats["pipeline_independent_alignments"] += 1
+            else:
+                # the same alignments mirrored through the coordinate maps (not what an aligner would report for an indel
+                # in a repeat on the other strand: such samples are left to the first mode)
+                if any(shiftable_indel(genes[0], m) for a, mi in copies for m in sim.copy_variants(genes[0], a, mi)):
+                    stats["pipeline_mirror_skipped_repeat_indel"] += 1
+                    continue
+                prof_b = transport_reads(prof_a, genes[0], genes[1])
+                smp_b = transport_reads(smp_a, genes[0], genes[1])
             if prof_b is None or smp_b is None:
                 stats["pipeline_skipped_unmapped"] += 1
                 continue
@@ -357,7 +382,16 @@ def tie(ctx):
                     outs.append("ERROR " + str(e)[:60])
             stats["pipeline_pairs"] += 1
             if outs[0] != outs[1]:
-                violations.append({"why": f"genotyping alignments against hg19 gives {str(outs[0])[:200]}, against hg38 {str(outs[1])[:200]}", "input": {"db": gd, "copies": copies}, "signature": "c13:pipeline_differs"})
+                sig = "c13:pipeline_differs"
+                noscore = [[(x[0],) + tuple(x[2:]) for x in o] if isinstance(o, list) else o for o in outs]
+                def norm_name(nm):
+                    return " ".join("+".join([t.split("+")[0]] + sorted(t.split("+")[1:])) if "+" in t and len(t) > 1 else t for t in nm.split(" "))
+                renamed = [[(norm_name(x[0]),) + tuple(x[1:]) for x in o] if isinstance(o, list) else o for o in outs]
+                if renamed[0] == renamed[1]:
+                    sig = "c13:order_of_added_variants_in_name"
+                elif noscore[0] == noscore[1] and any(shiftable_indel(genes[0], m) for a, mi in copies for m in sim.copy_variants(genes[0], a, mi)):
+                    sig = "c13:score_differs_indel_in_repeat"
+                violations.append({"why": f"genotyping alignments against hg19 gives {str(outs[0])[:200]}, against hg38 {str(outs[1])[:200]}", "input": {"db": gd, "copies": copies}, "signature": sig})
     finally:
         shutil.rmtree(d, ignore_errors=True)
     firstv = {}
